@@ -112,6 +112,22 @@ func shapes() []shape {
 			g.Link(sp, e, nil)
 			return g
 		}, []string{"A", "X"}},
+		{"operation", func(ev func(string) drv.EventDef) *drv.Graph {
+			// two catch events on the same message, one bound to an operation, one not: a
+			// message matches a definition when both name the same operation or neither names one
+			// (for signals the suffix is just part of the name)
+			g := drv.NewGraph("c11op")
+			s, f, e1, e2 := g.Add(drv.Start, "start"), g.Add(drv.AND, "F"), g.Add(drv.End, "end1"), g.Add(drv.End, "end2")
+			c1, t1, c2, t2 := catch(g, "cop", ev("m#op")), g.Add(drv.Task, "top"), catch(g, "cplain", ev("m")), g.Add(drv.Task, "tplain")
+			g.Link(s, f, nil)
+			g.Link(f, c1, nil)
+			g.Link(c1, t1, nil)
+			g.Link(t1, e1, nil)
+			g.Link(f, c2, nil)
+			g.Link(c2, t2, nil)
+			g.Link(t2, e2, nil)
+			return g
+		}, []string{"m", "m#op", "m#other"}},
 		{"behind", func(ev func(string) drv.EventDef) *drv.Graph {
 			// a catch event behind a task that is answered late
 			g := drv.NewGraph("c11behind")
@@ -320,6 +336,9 @@ func init() {
 					}
 					if len(alphabet) == 3 && n > 5 {
 						n = 6
+					}
+					if sh.name == "operation" && !thorough {
+						n = 4 - 2*d
 					}
 					el := &drv.EventLock{Sig: "C11/" + sh.name, G: g, Defs: defs, Events: alphabet, MaxEvents: n}
 					sc := &h.Scn{Name: fmt.Sprintf("C11/%s/%s/events<=%d/d%d", sh.name, kind, n, d), Body: el.Body(), Opts: verifrt.Options{Bound: d, UseCache: true}}
